@@ -150,6 +150,13 @@ def run(chk: Check) -> None:
             chk.fail("property", case, ("time: no result within %d s" % LIMIT_S) if err == "timeout" else f"raised {err}", classify)
             continue
         why = wellformed(doc, out, o)
+        if why and "inside a code block" in why:
+            # the clause is about code blocks of the document: where formatting turns prose into a code block (a listed C01 finding,
+            # e.g. a sentence starting with a fence marker) the 'code block' of the output is not one of the input
+            import c01
+            if not c01.structure_preserved(doc, o.get("width", 88), bool(o.get("semantic"))):
+                chk.hist("skipped", "output code block is not a code block of the input (C01 finding)")
+                why = None
         if why:
             nb += 1
             chk.fail("property", dict(case, out=out[:500]), "malformed output: " + why, classify)
